@@ -62,11 +62,11 @@ use rnacos::naming::model::actor_model::{InstanceRegisterParam, NamingRaftReq};
 use rnacos::naming::model::{Instance, InstanceKey, ServiceKey};
 use rnacos::raft::cache::{CacheLimiterReq, CacheManager, CacheManagerReq};
 use rnacos::raft::db::table::{
-    TableManager, TableManagerQueryReq, TableManagerReq, TableManagerResult,
+    TableManager, TableManagerInnerReq, TableManagerQueryReq, TableManagerReq, TableManagerResult,
 };
-use rnacos::raft::filestore::model::SnapshotHeaderDto;
+use rnacos::raft::filestore::model::{SnapshotHeaderDto, SnapshotRecordDto};
 use rnacos::raft::filestore::raftapply::{
-    StateApplyManager, StateApplyRequest, StateApplyResponse,
+    RaftApplyDataRequest, StateApplyManager, StateApplyRequest, StateApplyResponse,
 };
 use rnacos::raft::filestore::raftdata::RaftDataHandler;
 use rnacos::raft::filestore::raftindex::{RaftIndexManager, RaftIndexRequest, RaftIndexResponse};
@@ -126,11 +126,13 @@ fn sort_values(mut l: Vec<Value>) -> Vec<Value> {
 // ------------------------------------------------------------------------------------------------
 
 pub struct MiniNode {
-    pub dir: tempfile::TempDir,
+    /// owned temp data dir (mini node) or None (full node over an external data dir)
+    pub dir: Option<tempfile::TempDir>,
+    /// where the state-dump snapshot file is written (never the data dir of a full node)
+    pub scratch: std::path::PathBuf,
     pub config: Addr<ConfigActor>,
     pub table: Addr<TableManager>,
     pub namespace: Addr<NamespaceActor>,
-    #[allow(dead_code)]
     pub sequence_db: Addr<SequenceDbManager>,
     pub mcp: Addr<McpManager>,
     pub naming: Addr<NamingActor>,
@@ -201,7 +203,8 @@ impl MiniNode {
         let _factory_data = factory.init().await;
 
         let node = MiniNode {
-            dir,
+            scratch: dir.path().to_path_buf(),
+            dir: Some(dir),
             config,
             table,
             namespace,
@@ -220,6 +223,33 @@ impl MiniNode {
         // chain (load_index -> load_snapshot -> load_log) runs under ctx.wait, so its answer comes after.
         node.settle().await?;
         Ok(node)
+    }
+
+    /// The actors of a full node built by the real `starter::config_factory`.
+    pub fn from_factory(
+        fd: &bean_factory::FactoryData,
+        scratch: std::path::PathBuf,
+    ) -> anyhow::Result<MiniNode> {
+        fn need<T>(o: Option<T>, what: &str) -> anyhow::Result<T> {
+            o.ok_or_else(|| anyhow::anyhow!("bean missing: {}", what))
+        }
+        Ok(MiniNode {
+            dir: None,
+            scratch,
+            config: need(fd.get_actor(), "ConfigActor")?,
+            table: need(fd.get_actor(), "TableManager")?,
+            namespace: need(fd.get_actor(), "NamespaceActor")?,
+            sequence_db: need(fd.get_actor(), "SequenceDbManager")?,
+            mcp: need(fd.get_actor(), "McpManager")?,
+            naming: need(fd.get_actor(), "NamingActor")?,
+            direct_cache: need(fd.get_actor(), "DirectCacheManager")?,
+            cache: need(fd.get_actor(), "CacheManager")?,
+            index: need(fd.get_actor(), "RaftIndexManager")?,
+            log: need(fd.get_actor(), "RaftLogManager")?,
+            snapshot: need(fd.get_actor(), "RaftSnapshotManager")?,
+            apply: need(fd.get_actor(), "StateApplyManager")?,
+            handler: need(fd.get_bean(), "RaftDataHandler")?,
+        })
     }
 
     /// Awaited read-only round trip through every actor, three times: mailboxes are FIFO, and the longest
@@ -588,30 +618,44 @@ fn snapshot_value(tree: &str, value: &[u8], occur: &Occur) -> (&'static str, Val
 
 /// The generic state dump: the REAL `RaftDataHandler::build_snapshot` into a real SnapshotWriterActor,
 /// read back with the real SnapshotReader; records sorted by (tree, key, value).
-pub async fn snapshot_dump(node: &MiniNode, occur: &Occur) -> anyhow::Result<(Value, Value)> {
-    let path = Arc::new(
-        node.dir
-            .path()
-            .join("verif_state_dump.snapshot")
-            .to_string_lossy()
-            .into_owned(),
-    );
-    // NOT the all-default header: it encodes to a zero-length message and `MessageBufReader::is_empty`
-    // (first byte == 0) makes `SnapshotReader::init` fail with "read snapshot head error".
-    let header = SnapshotHeaderDto {
+/// which part of the node a BuildSnapshot request goes to
+#[derive(Clone, Copy, Debug, PartialEq, Eq)]
+pub enum Part {
+    All,
+    Sequence,
+    Config,
+    Table,
+    Namespace,
+    Mcp,
+    Naming,
+    Cache,
+}
+
+pub const PARTS: [(Part, &str); 7] = [
+    (Part::Sequence, "sequence"),
+    (Part::Config, "config"),
+    (Part::Table, "table"),
+    (Part::Namespace, "namespace"),
+    (Part::Mcp, "mcp"),
+    (Part::Naming, "naming"),
+    (Part::Cache, "cache"),
+];
+
+/// NOT the all-default header: it encodes to a zero-length message and `MessageBufReader::is_empty`
+/// (first byte == 0) makes `SnapshotReader::init` fail with "read snapshot head error".
+fn dump_header() -> SnapshotHeaderDto {
+    SnapshotHeaderDto {
         last_index: 1,
         last_term: 1,
         member: vec![],
         member_after_consensus: vec![],
         node_addrs: Default::default(),
-    };
-    let writer = SnapshotWriterActor::new(path.clone(), header).start();
-    node.handler.build_snapshot(writer.clone()).await?;
-    writer.send(SnapshotWriterRequest::Flush).await??;
-    // the Flush handler answers before its `ctx.wait` future has run; a second Flush is only handled
-    // once the first one has completed
-    writer.send(SnapshotWriterRequest::Flush).await??;
-    let mut reader = SnapshotReader::init(path.as_str()).await?;
+    }
+}
+
+/// read a snapshot file back with the real SnapshotReader -> (sorted canonical records, decoded sequences)
+pub async fn read_snapshot_canon(path: &str, occur: &Occur) -> anyhow::Result<(Value, Value)> {
+    let mut reader = SnapshotReader::init(path).await?;
     let mut recs: Vec<(String, String, String, Value)> = vec![];
     let mut seqs: Vec<(String, u64)> = vec![];
     while let Some(rec) = reader.read_record().await? {
@@ -632,8 +676,6 @@ pub async fn snapshot_dump(node: &MiniNode, occur: &Occur) -> anyhow::Result<(Va
         }
         recs.push((tree, hex(&rec.key), val.to_string(), Value::Object(m)));
     }
-    drop(reader);
-    let _ = std::fs::remove_file(path.as_str());
     recs.sort_by(|a, b| (&a.0, &a.1, &a.2).cmp(&(&b.0, &b.1, &b.2)));
     seqs.sort();
     let seqs: Vec<Value> = seqs.into_iter().map(|(k, v)| json!([k, v])).collect();
@@ -641,6 +683,179 @@ pub async fn snapshot_dump(node: &MiniNode, occur: &Occur) -> anyhow::Result<(Va
         Value::Array(recs.into_iter().map(|r| r.3).collect()),
         Value::Array(seqs),
     ))
+}
+
+/// The generic state dump: the REAL `RaftDataHandler::build_snapshot` (Part::All) or the BuildSnapshot
+/// message of one actor, into a real SnapshotWriterActor, read back with the real SnapshotReader; records
+/// sorted by (tree, key, value).
+async fn build_part_file(node: &MiniNode, part: Part) -> anyhow::Result<Arc<String>> {
+    static SEQ: std::sync::atomic::AtomicU64 = std::sync::atomic::AtomicU64::new(0);
+    let n = SEQ.fetch_add(1, std::sync::atomic::Ordering::SeqCst);
+    let path = Arc::new(
+        node.scratch
+            .join(format!(
+                "verif_state_dump_{}_{}.snapshot",
+                std::process::id(),
+                n
+            ))
+            .to_string_lossy()
+            .into_owned(),
+    );
+    let writer = SnapshotWriterActor::new(path.clone(), dump_header()).start();
+    let w = writer.clone();
+    match part {
+        Part::All => node.handler.build_snapshot(w).await?,
+        Part::Sequence => {
+            node.sequence_db
+                .send(RaftApplyDataRequest::BuildSnapshot(w))
+                .await??;
+        }
+        Part::Config => {
+            node.config.send(ConfigCmd::BuildSnapshot(w)).await??;
+        }
+        Part::Table => {
+            node.table
+                .send(TableManagerInnerReq::BuildSnapshot(w))
+                .await??;
+        }
+        Part::Namespace => {
+            node.namespace
+                .send(RaftApplyDataRequest::BuildSnapshot(w))
+                .await??;
+        }
+        Part::Mcp => {
+            node.mcp
+                .send(RaftApplyDataRequest::BuildSnapshot(w))
+                .await??;
+        }
+        Part::Naming => {
+            node.naming
+                .send(RaftApplyDataRequest::BuildSnapshot(w))
+                .await??;
+        }
+        Part::Cache => {
+            node.direct_cache
+                .send(RaftApplyDataRequest::BuildSnapshot(w))
+                .await??;
+        }
+    }
+    writer.send(SnapshotWriterRequest::Flush).await??;
+    // the Flush handler answers before its `ctx.wait` future has run; a second Flush is only handled
+    // once the first one has completed
+    writer.send(SnapshotWriterRequest::Flush).await??;
+    Ok(path)
+}
+
+pub async fn snapshot_part(
+    node: &MiniNode,
+    occur: &Occur,
+    part: Part,
+) -> anyhow::Result<(Value, Value)> {
+    let path = build_part_file(node, part).await?;
+    let r = read_snapshot_canon(path.as_str(), occur).await;
+    let _ = std::fs::remove_file(path.as_str());
+    r
+}
+
+/// same, but the records as they are: (tree, key, value) in file order
+pub async fn snapshot_part_raw(
+    node: &MiniNode,
+    part: Part,
+) -> anyhow::Result<Vec<(String, Vec<u8>, Vec<u8>)>> {
+    let path = build_part_file(node, part).await?;
+    let mut out = vec![];
+    let r: anyhow::Result<()> = async {
+        let mut reader = SnapshotReader::init(path.as_str()).await?;
+        while let Some(rec) = reader.read_record().await? {
+            out.push((rec.tree.as_ref().clone(), rec.key, rec.value));
+        }
+        Ok(())
+    }
+    .await;
+    let _ = std::fs::remove_file(path.as_str());
+    r?;
+    Ok(out)
+}
+
+pub async fn snapshot_dump(node: &MiniNode, occur: &Occur) -> anyhow::Result<(Value, Value)> {
+    snapshot_part(node, occur, Part::All).await
+}
+
+/// one frame exactly as `SnapshotWriter::write_record` writes it
+pub fn record_frame(tree: &str, key: &[u8], value: &[u8]) -> Vec<u8> {
+    let rec = SnapshotRecordDto {
+        tree: Arc::new(tree.to_string()),
+        key: key.to_vec(),
+        value: value.to_vec(),
+        op_type: 0,
+    };
+    let mut buf = Vec::new();
+    let mut writer = quick_protobuf::Writer::new(&mut buf);
+    writer.write_message(&rec.to_record_do()).unwrap();
+    buf
+}
+
+/// the header frame exactly as `SnapshotWriter::init` writes it
+pub fn header_frame(h: &SnapshotHeaderDto) -> Vec<u8> {
+    let mut buf = Vec::new();
+    let mut writer = quick_protobuf::Writer::new(&mut buf);
+    writer.write_message(&h.to_record_do()).unwrap();
+    buf
+}
+
+/// first difference of two JSON values: {"path","a","b"} (values cut to 400 chars) or None
+pub fn first_diff(a: &Value, b: &Value, path: &str) -> Option<Value> {
+    fn cut(v: &Value) -> Value {
+        let s = v.to_string();
+        if s.len() > 400 {
+            Value::String(format!("{}...", s.chars().take(400).collect::<String>()))
+        } else {
+            v.clone()
+        }
+    }
+    match (a, b) {
+        (Value::Object(x), Value::Object(y)) => {
+            let keys: BTreeSet<&String> = x.keys().chain(y.keys()).collect();
+            for k in keys {
+                let p = format!("{}/{}", path, k);
+                match (x.get(k), y.get(k)) {
+                    (Some(u), Some(v)) => {
+                        if let Some(d) = first_diff(u, v, &p) {
+                            return Some(d);
+                        }
+                    }
+                    (u, v) => {
+                        return Some(json!({"path": p, "a": u.map(cut), "b": v.map(cut)}));
+                    }
+                }
+            }
+            None
+        }
+        (Value::Array(x), Value::Array(y)) => {
+            for i in 0..x.len().max(y.len()) {
+                let p = format!("{}/{}", path, i);
+                match (x.get(i), y.get(i)) {
+                    (Some(u), Some(v)) => {
+                        if let Some(d) = first_diff(u, v, &p) {
+                            return Some(d);
+                        }
+                    }
+                    (u, v) => {
+                        return Some(json!({"path": p, "a": u.map(cut), "b": v.map(cut),
+                                           "len_a": x.len(), "len_b": y.len()}));
+                    }
+                }
+            }
+            None
+        }
+        _ => {
+            if a == b {
+                None
+            } else {
+                Some(json!({"path": path, "a": cut(a), "b": cut(b)}))
+            }
+        }
+    }
 }
 
 fn instance_json(i: &Instance) -> Value {
